@@ -31,3 +31,4 @@ class Reachability_analyze_checked(Contract):
             'all_reachable': implies(check_all_reachable,
                                      forall_keys('Stmt', lambda k: not ((k in result.has_entry) and not result.has_entry[k]))),
         }
+
